@@ -257,7 +257,11 @@ func scenarioC19(x *runner.X) {
 	x.Sim(runner.SimOpts{Phase: "streaming", Cfg: dsim.Config{MaxSteps: 50000000, MaxSimTime: 10 * time.Hour, NoTimerRace: true}}, func() {
 		s := dsim.Active()
 		servers := map[string]*MultiEpoch{}
-		for name, cfgs := range map[string][]string{"index": nil, "scan": noGsfa} {
+		for _, name := range []string{"index", "scan"} { // fixed order: a map range here would make the run irreproducible
+			var cfgs []string
+			if name == "scan" {
+				cfgs = noGsfa
+			}
 			if name == "index" {
 				for _, b := range ws {
 					cfgs = append(cfgs, b.cfg)
@@ -387,8 +391,8 @@ func scenarioC19(x *runner.X) {
 			}
 		}
 		s.QuiesceTimers()
-		for _, m := range servers {
-			m.Close()
+		for _, name := range []string{"index", "scan"} {
+			servers[name].Close()
 		}
 	})
 	x.SetNontrivial(true)
